@@ -26,8 +26,13 @@ func NewExecutor() *Executor {
 var _ Visitor = (*Executor)(nil)
 
 // Rename renames a file. It is idempotent: if src does not exist but dst does,
-// it returns nil.
+// it returns nil. Renaming a path to itself is a no-op.
 func (e *Executor) Rename(src, dst string) error {
+	if src == dst {
+		// os.Rename fails with "file exists" when asked to rename a directory to
+		// itself, and there is nothing to do anyway.
+		return nil
+	}
 	err := os.Rename(src, dst)
 	if err == nil {
 		return nil
